@@ -18,6 +18,11 @@ CHECKS = [
   'level': 'Every path of the closest-point routine over all 8 real coordinates satisfies the KKT conditions of the convex distance problem (global optimality); radius search and the whole backend.run filter '
            '(mutual nearest, delta-v, label, sort, midpoint) are decided on every path for symbolic clouds up to the stated sizes.',
   'note': 'bounded cloud sizes (2x2, 2x3; 3x3/3x2 thorough); pairwise squared distances abstracted to free non-negative reals inside backend.run (sound over-approximation); float ties outside the claim'},
+ {'id': 'C20',
+  'technique': 'symbolic execution of the real cache/service classes (make_key, get_or_create, period setter, propagate, monodromy, stability, correct, apply_correction, generate) with every expensive computation an uninterpreted function of its logical inputs (z3 with functional-consistency axioms); all operation histories up to the bound x all equality patterns of the symbolic arguments decided per path',
+  'level': 'Cache-key injectivity on the argument shapes used at the call sites (equal keys imply equal option leaves, decided by z3) and, for every operation history up to the bound on one orbit object, every observable equals '
+           'the uninterpreted computation applied to the current logical state (fresh-twin model), for all values and coincidences of periods, states, tolerances.',
+  'note': 'histories of length <= 3 (quick) / 4 (thorough) over 12 operations on the orbit dynamics/correction/continuation services; save/load, id()-keyed process-wide caches, manifold/torus/centre-manifold histories are outside (persistence and object identity have no symbolic content)'},
  {'id': 'C13',
   'technique': 'path-exhaustive symbolic execution of the predictor-corrector loop with the corrector outcome a free solver boolean per call (symbolic fault sequence); contracts discharged by z3 per path',
   'level': 'For every accept/reject sequence of the corrector within the bounds and all symbolic steps, targets and limits: member limit, counters = events, retry budget, predictions (natural and secant), '
